@@ -26,7 +26,7 @@ COMMON_ASSUMPTIONS = [
     "the reference models in /verif/sim/plonksim/src (rm_*.rs) are the trusted base.",
 ]
 
-C19_RULE = "one evaluation = one kernel call compared with the same call under the canonical environment (schedule independence: pool size T from the menu incl. both sides of the >=4-thread switch, seeded schedule), or one sampled output index compared with the mathematical definition computed by Horner evaluation in the harness (fft(a)[i] = sum_j a_j w^(ij); coset form with the field generator; ifft; coset_ifft), or one algebraic identity (ifft(fft(a)) = a, coset_ifft(coset_fft(a)) = a, sum_i L_i(tau) f(w^i) = f(tau) with tau inside and outside the domain, barycentric vs direct evaluation outside and at a point of the domain, vanishing polynomial closed forms over cosets of arbitrary degree, incl. degrees that do not divide the domain size). Domain sizes 2^0..2^14 (both sides of the 2^12 parallel threshold), input lengths shorter than, equal to and (up to 2^12) longer than the domain, vectors with zeros / trailing zeros / unit vectors. Non-trivial = non-canonical environment or a definitional check; distinct = hash of (input vector, domain, kernel, environment or index)."
+C19_RULE = "one evaluation = one kernel call compared with the same call under the canonical environment (schedule independence: pool size T from the menu incl. both sides of the >=4-thread switch, seeded schedule), or one sampled output index compared with the mathematical definition computed by Horner evaluation in the harness (fft(a)[i] = sum_j a_j w^(ij); coset form with the field generator; ifft; coset_ifft), or one algebraic identity (ifft(fft(a)) = a, coset_ifft(coset_fft(a)) = a, sum_i L_i(tau) f(w^i) = f(tau) with tau inside and outside the domain, barycentric vs direct evaluation outside and at a point of the domain, vanishing polynomial closed forms over cosets of arbitrary degree, incl. degrees that do not divide the domain size). Domain sizes 2^0..2^14 (both sides of the 2^12 parallel threshold), input lengths shorter than, equal to and (up to 2^12) longer than the domain, vectors with zeros / trailing zeros / unit vectors. Every third run exercises the serial kernels instead: polynomial addition, subtraction, scaled addition, scalar multiplication, multiplication (FFT-based; exact schoolbook product for small operands, degree plus three random evaluation points for operands up to ~4000 coefficients, product domains on both sides of 2^12), evaluation (Horner), division by a linear factor (synthetic division incl. z = 0 and constant / zero dividends) and batch inversion (every non-zero entry inverted, zeros left; lengths 0..4200 incl. 1023/1024/1025 and lengths that are no multiple of any block size) - each compared with schoolbook arithmetic and, under three seeded pools/schedules, with its own result under the canonical environment. Non-trivial = non-canonical environment or a definitional check; distinct = hash of (input vector, domain, kernel, environment or index)."
 
 
 def c17_coverage(agg):
@@ -118,7 +118,7 @@ PROPS = {
         "runs": {"quick": 1600, "thorough": 40000},
         "budget_s": {"quick": 400, "thorough": 3000},
         "rule": C19_RULE,
-        "assumptions": ["claimed for the kernels with a parallel path (FFT family, Lagrange coefficients, barycentric evaluation, vanishing-polynomial closed forms) reached through the verif::kernels wrappers; polynomial add/sub/mul/ruffini and batch_inversion have no parallel path and no other seam (pure algebra) and are not decided here"],
+        "assumptions": ["kernels are reached through the verif::kernels wrappers (hooks H5, H8). The FFT family, Lagrange coefficients, barycentric evaluation and vanishing-polynomial closed forms have a parallel path today; polynomial add/sub/mul/evaluate/ruffini and batch_inversion do not (polynomial multiplication inherits the FFT's) - for those the schedule dimension is a guard against a parallel path being introduced, and their comparison with schoolbook arithmetic is plain input variety (workload), reported as such"],
     },
     "C18": {
         "extra_phase": lambda mod, prop, tier, seed, agg: mod.c18_extra_phase(mod, prop, tier, seed, agg),
